@@ -106,6 +106,11 @@ def corrupt_demo(ctx, module, cfg, src, mutate, name):
             os.remove(v["replay"])
         except OSError:
             pass
+    for d in (os.path.join(vf.REPLAYS, sub.pid), ):
+        try:
+            os.rmdir(d)
+        except OSError:
+            pass
     ctx.cov.setdefault("binding_demo", []).append({"name": name, "corrupted_row": idx,
                                                    "rejected": ok})
     if not ok:
